@@ -18,25 +18,25 @@ CHECKS = {
    text="Every function on <=2 blocks x every filling with <=2 (thorough 3) of 23 operations (incl. intrinsics with undeclared, empty and one-scalar write sets) x shapes incl. single conditional edges, non-exhaustive and three-way guards x endianness x initial valuations x memory pre-fill; location, scalars and memory compared after every step, error classes must correspond, on-demand lifting followed. Larger programs/other operand values are not covered.",
    note="Trusted: refil reference semantics (harness). End of a terminal block = ExecutorNoValidLocation accepted as termination."),
  "C09": dict(level="model_checking", sec="3/C09", technique="exhaustive enumeration of all CFGs on <=3 blocks x entry x exit x block sizes x a family of finite-lattice analyses; oracle = Kleene iteration cross-checked by brute-force search for the least solution",
-   text="All 2^(n*n) edge sets for n<=3 with every entry/exit and block sizes, four analyses (three monotone, one non-monotone) under rotations of the transfer assignment, forward/backward, force, step budgets; the returned map must have exactly the reachable locations and equal the least solution, or be an error when non-monotone / out of budget. Larger CFGs and other lattices are not covered.",
+   text="All 2^(n*n) edge sets for n<=3 with every entry/exit and block sizes, four analyses (three monotone, one non-monotone) under rotations of the transfer assignment, forward/backward through both the *_options functions and the convenience wrappers, force, step budgets; the returned map must have exactly the reachable locations and equal the least solution, or be an error when non-monotone / out of budget. Larger CFGs and other lattices are not covered.",
    note="Trusted: harness location graph and Kleene/brute-force oracles (the brute-force search validates that Kleene computes the least solution on every graph with <=6 locations)."),
  "C18": dict(level="model_checking", sec="3/C18", technique="exhaustive enumeration of all functions on <=3 blocks x sizes x address patterns; complete traversal of the location graph against a definitional one",
    text="Every function on <=3 blocks (all edge sets, all entries, block sizes 0/1/2 and index gaps, three address patterns, two program placements); every location: forward/backward converse and equal to the definition, locations() exact, forward closure from the entry exact, owned/borrowed round trip on program and clone, migrate, from_address for every address. Larger functions are not covered.",
    note="Trusted: definitional location graph built by the harness from blocks()/edges()."),
  "C12": dict(level="model_checking", sec="3/C12", technique="exhaustive enumeration of small IL functions x initial states; explicit-state product of each concrete execution with a last-writer monitor, plus static path checks",
-   text="Every function on <=2 blocks with <=3 instructions (3 blocks: <=1, thorough 2) from a 10-operation alphabet incl. two-scalar reads, self-referential updates, loads, stores, declared and undeclared intrinsics; in every reachable product state the last writer of each scalar must be in reaching_definitions/use_def; reported definitions must reach along a kill-free path; def_use == inverse(use_def). Larger programs are not covered.",
+   text="Every function on <=2 blocks with <=3 instructions (3 blocks: <=1 with the whole alphabet and <=2 over the plain assignments; thorough <=3) from a 13-operation alphabet incl. two-scalar reads, self-referential updates, loads (one addressed through its own destination), stores, intrinsics with declared (one and two scalars) and undeclared writes, an indirect branch; in every reachable product state the last writer of each scalar must be in reaching_definitions/use_def; reported definitions must reach along a kill-free path; def_use == inverse(use_def). Larger programs are not covered.",
    note="Trusted: refil reference semantics, harness expression walker for read/write sets, harness location graph."),
  "C14": dict(level="model_checking", sec="3/C14", technique="exhaustive enumeration of small IL functions x initial states; lock-step explicit-state product of the input and the DCE output (observational-equivalence monitor)",
    text="Same program space as C12 plus indirect branches; structural identity (only ops->nop), then lock-step product from every initial valuation: same path, same stores, same scalar state at every intrinsic/indirect branch and at terminal blocks. Larger programs are not covered.",
    note="Trusted: refil reference semantics; intrinsics are observation points whose declared writes yield equal values on both sides."),
  "C13": dict(level="model_checking", sec="3/C13", technique="exhaustive enumeration of small IL functions x initial states x intrinsic-effect variants; explicit-state product of each concrete execution with an assigned-scalar monitor",
-   text="Every function on <=2 blocks with <=3 instructions (3 blocks: <=1, thorough 2) from a 9-operation value-bearing alphabet; in every reachable product state each constant reported for an assigned scalar and each Constants::eval result is compared with the concrete value; constants() must complete on every function passing a definite-assignment check. Larger programs/other values are not covered.",
+   text="Every function on <=2 blocks with <=3 instructions (3 blocks: <=1 / <=2 over plain assignments, thorough <=3) from a 9-operation value-bearing alphabet; executions ending at an indirect branch and executions continuing along the CFG after it are both explored; in every reachable product state each constant reported for an assigned scalar and each Constants::eval result is compared with the concrete value; constants() must complete on every function passing a definite-assignment check. Larger programs/other values are not covered.",
    note="Trusted: refil reference semantics; havoc model for intrinsics (identity, or written scalars := 2)."),
  "C10": dict(level="model_checking", sec="3/C10", technique="exhaustive enumeration of small IL functions x initial states; definitional SSA validity checks plus lock-step explicit-state product of the original and its SSA form (parallel phi semantics)",
    text="Same program space as C12 (loops through the entry, self-loops, unreachable blocks included); static: structure kept, single assignment, phi operands per predecessor, uses dominated by definitions (dominance by deletion); dynamic: lock-step product from every initial valuation with version-keyed scalars: same path, same values, no read of an unwritten version. Larger programs are not covered.",
    note="Trusted: refil reference semantics incl. phi execution; declared intrinsic writes are havocked identically on both sides."),
  "C17": dict(level="model_checking", sec="3/C17", technique="exhaustive enumeration of small IL functions over each architecture's stack pointer plus lifted prologue/epilogue snippets; explicit-state product of every concrete execution with the reported offsets",
-   text="For all 7 architectures: every entry-without-incoming-edge function on <=2 blocks with <=3 instructions (3 blocks <=2) from a 13-operation stack-pointer alphabet (constant moves, masking, xor, constants, other registers, loads, stores) and lifted snippets; whenever Value(o) is reported after a location the concrete sp must equal entry sp + o (mod 2^w) on every execution from 8 initial states. Runs are cut at 48 steps.",
+   text="For all 7 architectures: every entry-without-incoming-edge function on <=2 blocks with <=3 instructions (3 blocks <=2) from a 19-operation stack-pointer alphabet (displacements with the constant on either side incl. 2 GiB and 4 GiB, K - sp, masking, xor, constants, other registers, loads, stores) and lifted snippets; whenever Value(o) is reported after a location the concrete sp must equal entry sp + o (mod 2^w) on every execution from 8 initial states. Runs are cut at 48 steps.",
    note="Trusted: refil reference semantics. Offsets compared modulo the pointer width."),
  "C15": dict(level="model_checking", sec="3/C15", technique="stateright explicit-state BFS over all CFG construction/editing histories on the real ControlFlowGraph; structural invariants in every state and bounded trace-language equality across merge/append transitions",
    text="Every history from the empty graph or one of 5 library graphs applying new_block, push, (un)conditional edges, set_entry/exit, merge, append, insert, remove_instruction, Block::append (incl. error paths) to depth 3 (full alphabet: 2) in quick, 4 (3) in thorough; all structural invariants in every state; merge must not change, and append must sequentially compose, the set of tag/guard traces up to 8 symbols; blockify of every sequence of <=3 library graphs. Longer histories are not covered.",
@@ -60,7 +60,7 @@ CHECKS = {
    text="Every control-field value of add/sub immediate/shifted/extended, MOV aliases, all load/store addressing modes incl. pairs, literal, acquire/release and SIMD&FP register forms, all branch kinds; register fields over {0,1,2,30,31} with aliasing; boundary immediates; boundary values squared, all 16 NZCV valuations for conditional branches, both data endiannesses; X0-X30, SP, NZCV, V0-V31, memory, next PC compared (28 k accepted words, 0.95 M states in quick). Values outside the alphabets are not covered.",
    note="Trusted: harness A64 reference interpreter (AddWithCarry, ShiftReg, ExtendReg, DecodeBitMasks), refil. CONSTRAINED UNPREDICTABLE forms skipped; accepted words the reference does not model are counted."),
  "C19": dict(level="exploration", sec="3/C19", technique="exhaustive lattice of abstract ELF images emitted by an independent ELF writer, loaded at several bases; oracle = the abstract description plus the base-0/base-B differential",
-   text="All combinations of 7 class/endianness/machine targets x segment layouts (vaddr, filesz, memsz>filesz, 4 permission sets, second segment, interleaved non-load headers) x symbol sets (defined/undefined/zero-valued functions, objects, duplicates across symtab/dynsym, a PLT relocation) x entry choices x user entries x 3 bases: exact byte/permission/unmapped image, architecture, endianness, function-entry set, and uniform rebasing of sections, entries, symbols and program entry. ElfLinker (EM_386; EM_MIPS big and little endian with GOT entries and R_MIPS_REL32): 5 topologies of {main, libA.so, libB.so} x every assignment of {none, RELATIVE, {GLOB_DAT, JMP_SLOT, R_386_32} x every symbol of the link} to the relocation slots (1 per object, thorough 2/2/1), objects written to scratch files: every relocated word = base(definer)+value, every other byte = union of the objects' images. Symbol interposition order is not covered.",
+   text="All combinations of 7 class/endianness/machine targets x segment layouts (vaddr, filesz, memsz>filesz, 4 permission sets, second segment, interleaved non-load headers) x symbol sets (defined/undefined/zero-valued functions, objects, duplicates across symtab/dynsym, a PLT relocation) x entry choices x user entries x 5 bases (0, 2, 6, 0x10000, a far one): exact byte/permission/unmapped image, architecture, endianness, function-entry set, and uniform rebasing of sections, entries, symbols and program entry. ElfLinker (EM_386; EM_MIPS big and little endian with GOT entries and R_MIPS_REL32): 5 topologies of {main, libA.so, libB.so} x every assignment of {none, RELATIVE, {GLOB_DAT, JMP_SLOT, R_386_32} x every symbol of the link} to the relocation slots (1 per object, thorough 2/2/1), objects written to scratch files: every relocated word = base(definer)+value, every other byte = union of the objects' images. Symbol interposition order is not covered.",
    note="Trusted: harness ELF writer (independent of goblin). A link that returns an error is counted, not judged."),
 }
 NA = []
